@@ -284,3 +284,17 @@ Definition in_domain (a : attr) (v : pyval) : bool :=
       end
   | None => false
   end.
+
+(* ---- Message.from_bytes on a sequence of arbitrary Python items (C02, the type clause): decode_message first checks that the
+        message is not empty, then that every item is an Integral (bool counts), then decodes the integers ---- *)
+Definition atom_integral (a : atom) : option Z := match a with AInt z => Some z | ABool b => Some (if b then 1 else 0) | _ => None end.
+Fixpoint atoms_ints (l : list atom) : option (list Z) :=
+  match l with
+  | [] => Some []
+  | a :: r => match atom_integral a, atoms_ints r with Some z, Some zs => Some (z :: zs) | _, _ => None end
+  end.
+Definition dec_items (items : list atom) : res msg :=
+  match items with
+  | [] => Raise ValueError
+  | _ => match atoms_ints items with Some zs => dec zs | None => Raise TypeError end
+  end.
